@@ -135,8 +135,11 @@ RULE = ("(a) direct calls of kvarn_utils::parse::sanitize_request (on an http::R
         "disable_fs, response cache on/off, file cache on/off, six path-bound Prepare handlers (server cache preference None / "
         "QueryMatters / Full) and a predicate-bound Prepare whose predicate logs that it was consulted; histories of 10-30 requests "
         "(GET/HEAD/POST/OPTIONS and rarer methods, no / same-site / foreign Origin header, with or without access-control-request-method, "
-        "targets in every form, with and without query; in a part of the scenarios the client's Host header carries a piece of the "
-        "path: 'localhost/..', 'localhost/%2e%2e', 'localhost?', ... — the fixture host is the collection's default host) and of steps that copy a response-cache entry to an arbitrary key go through the public "
+        "targets in every form, with and without query; in a part of the scenarios the client's Host header is not a plain host name: "
+        "'localhost/..', 'localhost/%2e%2e', 'localhost?', 'a b', '[::1', 'localhost:80:80', 'u@localhost', empty ... — in process the harness "
+        "glues it into the URI, so it carries a piece of the path; over HTTP/1.1 kvarn's reader lets only a URI authority into the URI "
+        "(cdbcb3a, 2fb2d8c), any other value only chooses the host — the fixture host is the collection's default host — and the "
+        "origin-form target alone is the URI) and of steps that copy a response-cache entry to an arbitrary key go through the public "
         "kvarn::handle_cache; per request the status, the content-decoded body (kvarn's generated error page canonicalised by class: it IS "
         "what kvarn_utils::hardcoded_error_body generates for the status), the Prepare log AND the list of files and directories the "
         "server process opened below the run directory (inotify IN_OPEN on every directory of the fixture) are compared with "
@@ -174,9 +177,12 @@ ASSUMPTIONS = [
     "theorems 1c/3b/6/8 speak about the built-in Prime extensions ('Expand . and /', the two CORS reroutes of Extensions::new) and about "
     "Prime extensions returning a /./ override; other operator-written Prime/Prepare/Present extensions that build their own paths "
     "are outside the property (the fixture's Prepare handlers return fixed bodies)",
-    "the URI of a request is what kvarn's HTTP/1 readers (kvarn_async::read::request, application::parse_http_1) and the in-process "
-    "harness build: scheme '://' Host-header target, parsed by http::Uri (modelled in full: Model/PathSan.v uri_parse); over HTTP/2 the "
-    "h2 crate builds it from ':scheme', ':authority' and ':path' (http::uri::PathAndQuery: must be '*' or start with '/', '?' or '#')",
+    "the URI of a request is what the front end builds (the theorems about histories hold for ANY front end): the in-process harness "
+    "parses scheme '://' Host-header target with http::Uri (modelled in full: Model/PathSan.v uri_parse); kvarn's HTTP/1 readers "
+    "(kvarn_async::read::request, application::parse_http_1) do the same when the Host header's value is a URI authority by itself "
+    "(http::uri::Authority::try_from), else the origin-form target alone is the URI and a target in any other form is refused "
+    "(Model/PathSanPipe.v uri_of_h1; repairs cdbcb3a and 2fb2d8c); over HTTP/2 the h2 crate builds it from ':scheme', ':authority' and "
+    "':path' (http::uri::PathAndQuery: must be '*' or start with '/', '?' or '#')",
     "the response cache and the file cache are finite maps with read-your-writes (moka; their capacities are never reached in a "
     "history); response-cache keys are UriKey::PathQuery / UriKey::Path with the QueryMatters rule; no If-Modified-Since, no Vary "
     "rules (C03/C04's subject); theorems 2b/2c/7 show both caches are bypassed for unsafe paths whatever they contain",
@@ -407,7 +413,8 @@ PTOKENS = TOKENS + [b"%252e", b"%252f", b"%255c", b"%5C", b"\\", b"%252E", b"%2e
 ENDINGS = [b"/", b".", b"%2e", b"%2f", b"%252e", b"%252f", b"/.", b"./", b"..", b"%2e/", b"/%2e", b"%5c", b"\\"]
 QUERIES = [b"", b"?", b"?x=1", b"?x=2", b"?../..", b"?/../secret.txt", b"?x=1#f", b"#f", b"?%ff", b"?a?b"]
 # request targets that are not in origin form: absolute form (any scheme, userinfo, port, IPv6 literal), authority form, "*",
-# text without a leading '/': kvarn's HTTP/1 reader (and the in-process harness) glue the target to "http://<Host header>"
+# text without a leading '/': kvarn's HTTP/1 reader (when the Host header is a URI authority) and the in-process harness glue the target
+# to "http://<Host header>"
 OTHER_FORMS = [b"*", b"/\xc3\xa9?\xc3\xa9#\xc3", b"/a#\xff", b"/a?\xff", b"/\xff", "/é#é".encode(), b"http://localhost/../secret.txt", b"http://localhost/index.html", b"http://localhost", b"http://localhost/", b"HTTP://LOCALHOST/a/b.txt",
                b"https://localhost/../secret.txt", b"http://other.example/../secret.txt", b"http://localhost:80/secret.txt", b"ftp://h/../x",
                b"http://u:p@localhost/../secret.txt", b"http://[::1]/../secret.txt", b"//localhost/../secret.txt", b"http:/../secret.txt",
@@ -472,11 +479,47 @@ def pipe_target(rng):
     return t
 
 
-# what a client may write into the Host header (HTTP/1.1): kvarn's readers parse scheme "://" Host-header target as ONE text, so a '/'
-# in the Host header starts the path there
+# what a client may write into the Host header (HTTP/1.1). In process the harness parses "http://" Host-header target as ONE text, so a
+# '/' in the Host header starts the path there; kvarn's HTTP/1 readers do that only with a value that is a URI authority by itself
+# (cdbcb3a): any other value ('localhost/..', 'localhost?', 'a b', '[::1', 'localhost:80:80', empty) only chooses the host, the URI is
+# the origin-form target alone (2fb2d8c) and a target in another form is refused
 HOST_HEADERS = [b"localhost/..", b"localhost/%2e%2e", b"localhost/a", b"localhost?", b"localhost#", b"localhost:80", b"localhost/.", b"localhost//",
                 b"localhost/../..", b"other.example", b"localhost/sub", b"localhost/%2e", b"localhost/..%2f..", b"u@localhost", b"localhost/a/..",
-                b"localhost/%252e%252e", b"[::1]", b"localhost/q?x=1&y=", b"localhost/../errors"]
+                b"localhost/%252e%252e", b"[::1]", b"localhost/q?x=1&y=", b"localhost/../errors",
+                b"a b", b"[::1", b"localhost:80:80", b"", b"localhost@", b"local%68ost", b"u%41@localhost", b"other.example/..", b"/..", b"LOCALHOST",
+                b"localhost\\.."]
+
+_URI_CHARS = set(b"!#$&'()*+,-./0123456789:;=?@ABCDEFGHIJKLMNOPQRSTUVWXYZ[]_abcdefghijklmnopqrstuvwxyz~")
+
+
+def is_authority(h):
+    """http::uri::Authority::try_from(&[u8]).is_ok() (http 1.5.0, validate_authority_bytes + create_authority), written from the crate's
+    source, independently of the Coq model (Model/PathSan.v authority_end)"""
+    if not h:
+        return False
+    colons, sb, eb, pct, at = 0, False, False, False, len(h)
+    for i, b in enumerate(h):
+        if b in b"/?#":
+            return False                     # the authority ends before the end of the text
+        if b not in _URI_CHARS:
+            if b != 0x25:
+                return False
+            pct = True
+        elif b == 0x3a:
+            if colons >= 8:
+                return False
+            colons += 1
+        elif b == 0x5b:
+            if pct or sb:
+                return False
+            sb = True
+        elif b == 0x5d:
+            if not sb or eb:
+                return False
+            eb, colons, pct = True, 0, False
+        elif b == 0x40:
+            at, colons, pct = i, 0, False
+    return sb == eb and colons <= 1 and at != len(h) - 1 and not pct
 
 
 def rand_cfgkey(rng, benign=True, hosts=True):
@@ -843,11 +886,17 @@ def extra_oracle(c, i):
             continue
         status, body, log, opened = o[1][0][1], o[1][1][1], o[1][2][1], [x[1] for x in o[1][3][1]]
         m, k = r[1][0][1], r[1][2][1]
-        # Cors::is_part_of_origin compares the AUTHORITY of the URI ("localhost" + what the target has before its first '/', '?', '#')
-        # with the Origin header's: with such a target the site's own Origin is a foreign one
+        # Cors::is_part_of_origin compares scheme and AUTHORITY of the URI with the Origin header's. In process the harness builds the URI
+        # "http://" + Host header + target: its authority is that text up to the first '/', '?', '#'. Over HTTP/1.1 kvarn's reader does the
+        # same when the Host header is a URI authority by itself; any other Host header stays out of the URI (cdbcb3a), which then has no
+        # scheme and no authority: no Origin is the request's own. With an authority other than "localhost" the site's own Origin is a
+        # foreign one; with "other.example" the harness's "foreign" Origin is the request's own.
         if c.comp in ("pathsanpipe.run", "pathsanpipe.wire"):
             import re
-            auth = re.split(rb"[/?#]", g["hh"] + r[1][1][1], maxsplit=1)[0]
+            if c.comp == "pathsanpipe.wire" and not is_authority(g["hh"]):
+                auth = None
+            else:
+                auth = re.split(rb"[/?#]", g["hh"] + r[1][1][1], maxsplit=1)[0]
             if k in (1, 4) and auth != b"localhost":
                 k = {1: 2, 4: 3}[k]
             elif k in (2, 3) and auth == b"other.example":      # the harness's "foreign" Origin is then the request's own
@@ -976,7 +1025,8 @@ LEVEL_NOTE = ("Trusted: Coq kernel, extraction (ExtrOcamlBasic) reduced by an in
               "path-resolution model (no symlinks), the pipeline harness incl. its inotify / strace probes. No axioms. Two defects repaired on "
               "the way: sanitize tested the undecoded text when the decoding was not UTF-8 (3565dd3); Options::get_errors_dir returned "
               "public_data_dir, so a custom public directory moved the error pages into it and errors_dir was ignored (fbca956). Observed, "
-              "not a violation of this property: a request target that is not in origin form is glued to the Host header ('GET "
+              "not a violation of this property: a request target that is not in origin form is glued to the Host header when that is a URI "
+              "authority (any other Host header value stays out of the URI since cdbcb3a, and such a target is then refused) ('GET "
               "http://localhost/x' has the path '//localhost/x' and is refused with 400, 'GET *' and 'OPTIONS *' are answered as '/', "
               "'GET ../secret.txt' as '/secret.txt' of the host 'localhost..'): the path always starts at the target's first '/' and is "
               "sanitised as sent.")
